@@ -171,6 +171,18 @@ def gen_cored_system(rng, maxn, maxL):
         else:
             pr['pot'] = ['wca', None, 1.0] if rng.random() < 0.5 else ['ljshift', None, 0.5, 2.5]
             pr['clo'] = [rng.choice(['py', 'hnc']), False]
+    if rng.random() < 0.15:
+        # energies in units where kT is large (kT ~ 1e5: J/mol-like numbers) with correspondingly tall walls: exp(-wall/kT) must still underflow
+        f = rng.choice([1e5, 3e5])
+        sd['kT'] = sd['kT'] * f
+        if 'kT_assign' in sd: sd['kT_assign'] = sd['kT_assign'] * f
+        for pr in sd['pairs'].values():
+            P = pr['pot']; pk = P[0]
+            if pk == 'hs': P[2] = 1e12
+            elif pk == 'exp': P[2] *= f; P[4] = 1e12
+            elif pk == 'hclj': P[2] *= f; P[3] = 1e12
+            elif pk in ('lj', 'wca'): P[2] *= f
+            elif pk in ('ljcut', 'ljshift'): P[2] *= f
     return sd
 
 def generate(ctx):
